@@ -73,6 +73,15 @@ x P2 240316#F4 done under an h4 s::abc due::2024-06-01
 
 ~ 240314#H1 cancelled in tops
 """,
+    # page names that begin with the letters of the f= prefix
+    "ffa.zo": """# FFA
+
+- 240317#J1 in ffa
+""",
+    "fa.zo": """# FA
+
+o 240318#J2 in fa
+""",
 }
 
 K_SINGLE = {
